@@ -3,11 +3,18 @@ import json, os, sys
 sys.path.append('/verif/.deps')
 V = '/verif'
 PY = '/venv/bin/python'
+E1NOTE = 'z3 LRA as exact per-execution oracle on concrete results, every witness re-evaluated with Fraction arithmetic; installed scipy/HiGHS, numpy, sympy, pyparsing as part of the implementation under test; grid bounds as printed in the evidence; reference models written from the property text'
+def e1(what, ref):
+    return ('exploration', 'bounded exhaustive enumeration of inputs/configurations executed on the real code, exact rational oracle per execution',
+            what + ' A coverage statement over the stated finite grid (complete enumeration, no sampling), not a proof beyond it.', E1NOTE, ref)
 CHECKS = {
  # id: (level, technique, level text, note, design_ref)
- 'C04': ('exploration', 'bounded exhaustive enumeration of (constraints, context, eliminated set) x every tactic configuration on the real code, exact rational oracle per execution',
-         'Every case of a stated finite grid (coefficients {-1,0,1,2}, <=2+3 terms, <=4 variables) is executed under every tactic configuration (each singleton, default, reversed, all 120 permutations on a sub-grid, simplify on/off, refine and relax) and the implication required by the property is decided exactly for each execution. A coverage statement over the grid, not a proof beyond it; small scopes are where the tactic defects live.',
-         'z3 LRA as exact per-execution oracle with Fraction re-evaluation of every witness; installed scipy/HiGHS as part of the implementation; grid bounds as printed in the evidence', 'DESIGN.md 4/C04'),
+ 'C03': e1('Every ordered pair of small constraint lists / contracts of the grid (incl. derived Farkas consequences, duplicates, scalings, infeasible sides, every pair of different interfaces) is put through refines, <=, contains_environment and contains_implementation and compared with an exact three-valued containment verdict.', 'DESIGN.md 4/C03'),
+ 'C04': e1('Every case of a stated finite grid (coefficients {-1,0,1,2}, <=2+3 terms, <=4 variables) is executed under every tactic configuration (each singleton, default, reversed, all 120 permutations on a sub-grid, simplify on/off, refine and relax) and the implication required by the property is decided exactly for each execution.', 'DESIGN.md 4/C04'),
+ 'C07': e1('Every (list, context) of the grid, every planted redundancy (duplicate, scaling, sum, tight and nearly tight copies, implied only via context) and the contract constructor / simplify() are executed; sub-multiset, equivalence in context, irredundancy and the ValueError-only-if-infeasible rule are decided exactly.', 'DESIGN.md 4/C07'),
+ 'C11': e1('Every list of the grid is evaluated on every behaviour of a dyadic lattice (on, inside and outside every boundary), with unassigned and extra variables; is_empty on every small list and on thin systems; consistency with refines on all pairs.', 'DESIGN.md 4/C11'),
+ 'C12': e1('Every contract of the grids (infeasible, bounded, unbounded; dense 3-variable systems where the LP presolve misreports) x 9 objectives x both directions and get_variable_bounds is compared with the exact rational LP answer.', 'DESIGN.md 4/C12'),
+ 'C19': e1('Every single-field edit of every base term / list / contract / compound contract, all ordered pairs and triples of each family, copies and dictionary round trips are compared with field-wise reference equality; symmetry, transitivity and eq=>hash-eq are checked on every pair.', 'DESIGN.md 4/C19'),
 }
 TODO = {}
 props = [json.loads(l) for l in open(V + '/properties.jsonl')]
